@@ -48,6 +48,16 @@ func (b Bonder) Bond(ctx context.Context, mutable state.Mutable, tx *chain.Trans
 	address := tx.GetSponsor()
 	addressBytes := address[:]
 
+	// Make this operation idempotent if the tx is already bonded
+	txID := tx.GetID()
+	bonded, err := b.db.Has(txID[:])
+	if err != nil {
+		return false, fmt.Errorf("failed to get tx fee: %w", err)
+	}
+	if bonded {
+		return true, nil
+	}
+
 	pendingBalance, err := b.getPendingBondBalance(addressBytes)
 	if err != nil {
 		return false, err
@@ -82,7 +92,6 @@ func (b Bonder) Bond(ctx context.Context, mutable state.Mutable, tx *chain.Trans
 		return false, err
 	}
 
-	txID := tx.GetID()
 	if err := batch.Put(txID[:], binary.BigEndian.AppendUint64(nil, fee)); err != nil {
 		return false, fmt.Errorf("failed to write tx fee: %w", err)
 	}
